@@ -113,3 +113,30 @@ def c14(ctx, replay):
     rep_file = ctx.path("depth_report.json")
     _, rep, _ = ctx.vh(["replay-depth", "-cases", cases_file, "-out", rep_file], expect_report=rep_file)
     ctx.add_report(rep, "depth", traces=rep.get("cases", 0))
+
+
+# ------------------------------------------------------------------------------------------------ C19
+@pipeline("C19")
+def c19(ctx, replay):
+    thorough = ctx.tier == "thorough"
+    ctx.rule = ("MC_Stats: every integer series over Vals of length 1..MaxLen in every order, the empty series, and every "
+                "experiment of <= MaxTrials trials x <= MaxGens generations over the generation scope; each is built as a "
+                "real Floats / Experiment value (series at 3 power-of-two scalings) and all accessors are compared with the "
+                "exact rational values of the definitions; non-trivial = unsorted series, or experiment with both solved "
+                "and unsolved trials")
+    ctx.assumptions = ["finite series of integers scaled by powers of two (exact comparison for order statistics and sums, "
+                       "1e-12 relative for mean/variance)",
+                       "variance of a single element is undefined (NaN), as in the textbook sample variance",
+                       "ties for the best organism of a trial may be resolved either way"]
+    cases_file = ctx.path("stats_cases.ndjson")
+    if replay is not None:
+        write_lines(cases_file, replay_cases(replay))
+    else:
+        mc = ctx.tlc("MC_Stats", "MC_Stats_thorough.cfg" if thorough else "MC_Stats.cfg", timeout=2400)
+        spec_must_hold(mc, "MC_Stats")
+        n = cat_files(cases_file, [mc.cases_file])
+        ctx.exhaustive = True
+        ctx.extra["scope"] = {"cases": n}
+    rep_file = ctx.path("stats_report.json")
+    _, rep, _ = ctx.vh(["replay-stats", "-cases", cases_file, "-out", rep_file], expect_report=rep_file)
+    ctx.add_report(rep, "stats", traces=rep.get("cases", 0))
